@@ -67,6 +67,16 @@ func diffParseRun(res *Result, d *Driver, src []byte, withRun bool) (implLine st
 			Note: "PARSE: dump, diagnostics, parse statistics or disassembly differ"})
 		return impl
 	}
+	if strings.HasPrefix(impl, "ok=1") {
+		// the tree the parser model built must pass the scoping checker: that is the hypothesis under
+		// which `accepted_program_runs` (Proofs/Scoped.lean) says the VM ends with a result or a runtime error
+		sc := ask(d, "SCOPED "+hx(src))
+		res.Count("scoped."+strings.SplitN(sc, " ", 2)[0], 1)
+		if !strings.HasPrefix(sc, "scoped=1") {
+			res.Fail(Failure{Kind: "model-diff", Op: "SCOPED " + hx(src), Input: string(src), Impl: impl, Model: sc,
+				Note: "the parser model accepted a program whose tree is not well scoped (hypothesis of accepted_program_runs)"})
+		}
+	}
 	if !withRun || !strings.HasPrefix(impl, "ok=1") {
 		return impl
 	}
